@@ -156,4 +156,36 @@ PROPS = {
         "quick": {"runs": [q(deadline=60)], "floor": {"schemas": 20000, "distinct_nontrivial": 8000, "literal_probes": 500000}},
         "thorough": {"runs": [q(deadline=2400, watchdog=5400)], "floor": {"schemas": 300000, "distinct_nontrivial": 100000}},
     },
+    "C06": {
+        "eval_counter": "outputs_judged",
+        "case_counter": "schemas",
+        "rule": "case = random schema over the documented keyword set (type, enum, const, anyOf, allOf, oneOf, $ref incl. recursive, items, "
+                "prefixItems, min/maxItems, properties, required, additionalProperties, patternProperties, min/maxProperties, min/maxLength, "
+                "pattern, format, numeric bounds, multipleOf, x-guidance options; 1/12 with an unsupported keyword) or a corpus schema, "
+                "vocabulary V1|Vsyn|Vbpe. (1) complete outputs are produced by extending-then-closing walks through the masks and judged: "
+                "strict RFC 8259 parse, then the harness validator (exact decimals, duplicate-key aware, formats from the RFCs) with the "
+                "jsonschema crate as second opinion (disagreement on non-numeric keywords => inconclusive, logged); (2) directed negative "
+                "probes: constructive instances are mutated (numbers, strings, arrays, keys, duplicated declared keys) and every mutant "
+                "judged invalid must NOT be accepted as a complete string. evaluations = outputs judged. Non-trivial = validated output of "
+                "a schema using >=3 keyword kinds; distinct by (schema, output).",
+        "assumptions": ["ref_json validator decides numeric keywords and duplicate keys; jsonschema 0.29 is the second opinion elsewhere",
+                        "hostname total-length limit is not asserted by the oracle"],
+        "quick": {"runs": [q(deadline=50)], "floor": {"schemas": 1200, "outputs_judged": 8000, "distinct_nontrivial": 1500, "negative_probes_invalid": 1000}},
+        "thorough": {"runs": [q(deadline=1800, watchdog=5400)], "floor": {"schemas": 30000, "outputs_judged": 300000}},
+    },
+    "C07": {
+        "eval_counter": "tokens_fed",
+        "case_counter": "schemas",
+        "rule": "case = random schema of the fully supported subset (type, enum, const, anyOf, $ref incl. recursive, items, prefixItems, "
+                "min/maxItems, properties, required, additionalProperties, min/maxLength, numeric bounds, integer multipleOf) with one of five "
+                "whitespace/separator option sets, and constructive instances (edge-biased numbers, strings with multi-byte characters / quotes / "
+                "control characters, optional properties in schema order, additional keys last) that BOTH validators accept. Each instance is "
+                "serialised the standard way (serde_json string/number forms; compact, or with the whitespace the option permits), tokenised "
+                "by the environment's tokenizer / greedily / by a random segmentation over V1, Vsyn or Vbpe and fed: every token must be in "
+                "the mask at its step (non-canonical tokenizers) and commit, validate_tokens(all)==len, and the end state must be accepting. "
+                "evaluations = tokens fed. Non-trivial = accepted instance of >=4 tokens; distinct by (schema, text, vocabulary).",
+        "assumptions": ["instances are only used when the harness validator and the jsonschema crate both accept them"],
+        "quick": {"runs": [q(deadline=50)], "floor": {"schemas": 1500, "instances": 6000, "distinct_nontrivial": 2500}},
+        "thorough": {"runs": [q(deadline=1800, watchdog=5400)], "floor": {"schemas": 30000, "instances": 150000}},
+    },
 }
